@@ -9,6 +9,7 @@ pub mod c04;
 pub mod c05;
 pub mod c06;
 pub mod c07;
+pub mod c08;
 pub mod c09;
 pub mod c10;
 pub mod c18;
@@ -58,6 +59,7 @@ pub async fn dispatch(prop: &str, ctx: &Ctx, rep: &mut Report) -> bool {
         "C05" => c05::run(ctx, rep).await,
         "C06" => c06::run(ctx, rep).await,
         "C07" => c07::run(ctx, rep).await,
+        "C08" => c08::run(ctx, rep).await,
         "C09" => c09::run(ctx, rep).await,
         "C10" => c10::run(ctx, rep).await,
         "C18" => c18::run(ctx, rep).await,
